@@ -397,5 +397,8 @@ RULES = [
     ("C09.partition_thread", lambda c, r: __import__("sa.rules.lfht2", fromlist=["x"]).rule_partition_thread(c, r, "C09.partition_thread")),
     ("C09.levels", lambda c, r: __import__("sa.rules.lfht2", fromlist=["x"]).rule_levels(c, r, "C09.levels")),
     ("C09.dispatch", lambda c, r: __import__("sa.rules.lfht2", fromlist=["x"]).rule_dispatch(c, r, "C09.dispatch")),
+    ("C09.partloops", lambda c, r: __import__("sa.rules.lfht2", fromlist=["x"]).rule_partloops(c, r, "C09.partloops")),
+    ("C09.explicit_resize", lambda c, r: __import__("sa.rules.lfht2", fromlist=["x"]).rule_explicit_resize(c, r, "C09.explicit_resize")),
+    ("C09.newfields", lambda c, r: __import__("sa.rules.lfht2", fromlist=["x"]).rule_newfields(c, r, "C09.newfields")),
 ]
 FLOORS = {"C09.pow2": 4}
